@@ -150,6 +150,10 @@ impl JwkStorageBbsPlusExt for StrongholdStorage {
       return Err(KeyStorageError::new(KeyStorageErrorKind::KeyNotFound));
     }
 
+    let pk = expand_bls_jwk(public_key)
+      .map_err(|e| KeyStorageError::new(KeyStorageErrorKind::Unspecified).with_source(e))?
+      .1;
+
     let sk_location = Location::Generic {
       vault_path: IDENTITY_VAULT_PATH.as_bytes().to_vec(),
       record_path: key_id.to_string().as_bytes().to_vec(),
@@ -160,6 +164,12 @@ impl JwkStorageBbsPlusExt for StrongholdStorage {
     client
       .get_guards([sk_location], |[sk]| {
         let sk = BBSplusSecretKey::from_bytes(&sk.borrow()).map_err(|e| FatalProcedureError::from(e.to_string()))?;
+        // Ed25519 and BBS+ secrets live in the same vault: ensure `sk` and `pk` match (as `sign_bbs` does).
+        if sk.public_key() != pk {
+          return Err(FatalProcedureError::from(
+            "`public_key` is not the public key of key with id `key_id`".to_owned(),
+          ));
+        }
         let signature_update_result =
           update_bbs_signature(alg, signature, &sk, &ctx).map_err(|e| FatalProcedureError::from(e.to_string()));
         drop(Zeroizing::new(sk.to_bytes()));
